@@ -3,6 +3,13 @@ use vh::evidence::{self, Cmd, Run, Tier};
 
 fn main() {
     evidence::quiet_panics();
+    let args: Vec<String> = std::env::args().collect();
+    if args.len() >= 6 && args[1] == "C07" && args[2] == "--worker" {
+        let tier = if args[5] == "thorough" { Tier::Thorough } else { Tier::Quick };
+        let w = vh::c07::worker(tier, args[3].parse().unwrap(), args[4].parse().unwrap());
+        println!("{}", serde_json::to_string(&w).unwrap());
+        return;
+    }
     match evidence::parse_args() {
         Cmd::Check(prop, tier) => check(&prop, tier),
         Cmd::Replay(prop, file) => replay(&prop, &file),
@@ -20,6 +27,11 @@ fn check(prop: &str, tier: Tier) {
     match prop {
         "C09" | "C10" | "C11" | "C12" => check_dom(prop, tier),
         "C18" => check_c18(tier),
+        "C07" => {
+            let run = Run::new("C07", tier, "model_checking");
+            let cov = vh::c07::check(&run);
+            run.finish(cov, &["hash-order variation comes from fresh per-map ahash seeds on every rebuild, from Ref values, from construction sequence and capacity history, and from independently started worker processes (fresh process-wide seeds)", "Ustr's precomputed string hash uses fixed keys, so property-map order varies only with insertion/capacity history"]);
+        }
         "C08" => {
             let run = Run::new("C08", tier, "model_checking");
             let cov = vh::c08::check(&run);
@@ -364,6 +376,7 @@ fn replay(prop: &str, file: &std::path::Path) {
         "C15" => simple_replay("C15", vh::c15::replay(case)),
         "C06" => simple_replay("C06", vh::c06::replay(case)),
         "C08" => simple_replay("C08", vh::c08::replay(case)),
+        "C07" => simple_replay("C07", vh::c07::replay(case)),
         "C17" => {
             let vs = vh::c17::replay(case);
             for (k, w) in &vs {
